@@ -123,6 +123,44 @@ fn c09_is_valid_duration_huge_field() {
     assert!(!is_valid_duration(f[0], f[1], f[2], f[3], f[4], f[5], f[6], f[7], f[8], f[9]));
 }
 
+/// a huge finite field next to a small non-zero field of the same sign: still rejected, and no overflow in the exact
+/// arithmetic that follows the per-field guard
+// bounded: one huge field (index symbolic) and one field with |value| <= 1000 (index symbolic), unwind 11 with unwinding assertions on
+#[kani::proof]
+#[kani::unwind(11)]
+fn c09_is_valid_duration_huge_plus_small() {
+    let x: f64 = kani::any();
+    kani::assume(x.is_finite() && x.abs() >= 1.0e25);
+    let y: i16 = kani::any();
+    kani::assume(y != 0 && y >= -1000 && y <= 1000 && ((y > 0) == (x > 0.0)));
+    let k: u8 = kani::any();
+    let j: u8 = kani::any();
+    kani::assume(k < 10 && j < 10 && j != k);
+    let z = FiniteF64::default();
+    let mut f = [z; 10];
+    f[k as usize] = FiniteF64(x);
+    f[j as usize] = FiniteF64(y as f64);
+    assert!(!is_valid_duration(f[0], f[1], f[2], f[3], f[4], f[5], f[6], f[7], f[8], f[9]));
+}
+
+/// the 2^53 s boundary with a sub-second part: a whole-second total of exactly +-(2^53 - 1) s stays valid for every
+/// sub-second part below one second in magnitude (both signs alike), and +-2^53 s is never valid
+// bounded: seconds in {+-(2^53-1), +-2^53}, sub-second fields with |value| < 1000 each, unwind 11 with unwinding assertions on
+#[kani::proof]
+#[kani::unwind(11)]
+fn c09_is_valid_duration_boundary_subsecond() {
+    let neg: bool = kani::any();
+    let at_limit: bool = kani::any();
+    let (ms, us, ns): (i16, i16, i16) = (kani::any(), kani::any(), kani::any());
+    kani::assume(ms >= 0 && ms < 1000 && us >= 0 && us < 1000 && ns >= 0 && ns < 1000);
+    let sg = if neg { -1.0 } else { 1.0 };
+    let s = if at_limit { 9_007_199_254_740_992.0 } else { 9_007_199_254_740_991.0 };
+    let z = FiniteF64::default();
+    kani::cover!(neg && !at_limit && ns > 0);
+    let got = is_valid_duration(z, z, z, z, z, z, FiniteF64(sg * s), FiniteF64(sg * ms as f64), FiniteF64(sg * us as f64), FiniteF64(sg * ns as f64));
+    assert!(got == !at_limit);
+}
+
 // ---- F-bridge: the contracts Verus assumes on src/primitive.rs (specs/f64.rs), proved on the real methods ----
 
 /// as_date_value: integral x in i32 range -> Ok(x); integral x outside -> RangeError
